@@ -87,7 +87,7 @@ def build_form(kind, c):
         t1 = inner(jump(u), jump(v)) * dS(metadata={"quadrature_degree": hi})
         t2 = inner(u("+"), v("+")) * dS(metadata={"quadrature_degree": lo})
         return (t1 + t2 if kind == "two_rules_a" else t2 + t1), V, None
-    if kind in ("gll_rule", "custom_unsorted", "custom_nonsym", "vertex_rule"):
+    if kind in ("gll_rule", "custom_unsorted", "custom_nonsym", "vertex_rule", "custom_diag"):
         # rules whose points are not stored in ascending order / are not symmetric: the permuted tables cannot be obtained from the
         # unpermuted ones by re-ordering assumptions
         V = c.V("DG", 1)
@@ -97,7 +97,7 @@ def build_form(kind, c):
         elif kind == "vertex_rule":
             md = {"quadrature_rule": "vertex", "quadrature_degree": 1}
         else:
-            md = corpus.custom_rule(c.cell, "interior_facet", "unsorted_symmetric" if kind == "custom_unsorted" else "nonsymmetric")
+            md = corpus.custom_rule(c.cell, "interior_facet", {"custom_unsorted": "unsorted_symmetric", "custom_diag": "diagonal"}.get(kind, "nonsymmetric"))
         wgt = 1 + x[0]("+") * x[c.gdim - 1]("-")
         return wgt * inner(jump(u), jump(v)) * dS(metadata=md) + ufl.sin(x[0]("+")) * inner(u("+"), v("-")) * dS(metadata=md), V, None
     if kind == "one_restriction":
@@ -295,7 +295,7 @@ def run_case(case):
                     return {"verdict": INCONCLUSIVE, "why": "reference tensor is (numerically) zero"}
             err = float(np.max(np.abs(Ag - A_ref))) / scale
             count("metamorphic_checks")
-            if kind == "custom_nonsym":
+            if kind in ("custom_nonsym", "custom_diag"):
                 # a rule that is not symmetric under the facet's reflections/rotations is a DIFFERENT (equally valid) rule in a
                 # numbering that sees the facet mirrored: the two numberings need not agree beyond the quadrature error.
                 # Here only the oracle (same numbering, same codes) decides, on every call.
@@ -305,7 +305,7 @@ def run_case(case):
             else:
                 count("metamorphic_ok")
             # (ii) oracle on a sample
-            if (kind == "custom_nonsym" and n_oracle < 60) or (n_oracle < case.get("oracle_samples", 12) and rng.random() < 0.3):
+            if (kind in ("custom_nonsym", "custom_diag") and n_oracle < 60) or (n_oracle < case.get("oracle_samples", 12) and rng.random() < 0.3):
                 n_oracle += 1
                 data = {"x": {"+": xdp3, "-": xdm3}, "w": {}, "c": {}}
                 if coef is not None:
@@ -340,7 +340,7 @@ def run_case(case):
     res["cover"]["cell_form"] = [f"{cellname}/{kind}/needs_perm={needs}"]
     res["sample"] = {"cell": cellname, "form": kind, "needs_facet_permutations": needs, "numberings_per_cell": len(autos), "numbering_pairs": len(pairs),
                      "codes_per_pair": nperm, "example_pair": [list(autos[pairs[-1][0]]), list(autos[pairs[-1][1]])]}
-    decided = cnt.get("metamorphic_ok", 0) or (kind == "custom_nonsym" and cnt.get("oracle_ok", 0))
+    decided = cnt.get("metamorphic_ok", 0) or (kind in ("custom_nonsym", "custom_diag") and cnt.get("oracle_ok", 0))
     res["verdict"] = VIOLATED if res["violations"] else (HELD if decided else INCONCLUSIVE)
     if res["verdict"] == INCONCLUSIVE:
         res["why"] = "no metamorphic comparison ran"
@@ -359,8 +359,8 @@ def cases_for(tier, s):
                 continue
             R.append({"cell": cell, "form": fk, "pairs": limit, "all_codes": cell not in ("hexahedron",) or tier == "thorough", "oracle_samples": 8 if tier == "quick" else 30})
         # non-default rules on the facet (GLL: interval/quadrilateral facets only; vertex scheme; user-supplied point sets)
-        for fk in ("gll_rule", "custom_unsorted", "custom_nonsym", "vertex_rule"):
-            if cell == "interval" or (fk == "gll_rule" and cell == "tetrahedron"):
+        for fk in ("gll_rule", "custom_unsorted", "custom_nonsym", "vertex_rule", "custom_diag"):
+            if cell == "interval" or (fk == "gll_rule" and cell == "tetrahedron") or (fk == "custom_diag" and cell not in ("tetrahedron", "hexahedron")):
                 continue
             lim = limit if cell not in ("tetrahedron", "hexahedron") else (24 if tier == "quick" else 200)
             R.append({"cell": cell, "form": fk, "pairs": lim, "all_codes": cell not in ("hexahedron",) or tier == "thorough", "oracle_samples": 6 if tier == "quick" else 20})
